@@ -1,0 +1,100 @@
+//! Verification hooks, compiled only with `--cfg gm_rs_verif`.
+//!
+//! Nothing in this module is reachable in a normal build. It gives an external
+//! test harness (a) control over the 32 candidate bytes that `random_u256`
+//! turns into a secret scalar, (b) a log of the scalars `random_u256` actually
+//! handed out and (c) access to a few crate-private items.
+
+use std::cell::RefCell;
+use std::collections::VecDeque;
+
+use crate::error::Sm2Result;
+use crate::exchange::Exchange;
+use crate::p256_ecc::Point;
+use crate::u256::U256;
+
+thread_local! {
+    static CANDIDATES: RefCell<Option<VecDeque<[u8; 32]>>> = RefCell::new(None);
+    static ACCEPTED: RefCell<Option<Vec<U256>>> = RefCell::new(None);
+}
+
+/// Message of the panic raised when an installed candidate queue runs dry
+/// (the retry-budget oracle: the library asked for more candidates than the
+/// harness was prepared to give).
+pub const EXHAUSTED_MSG: &str = "gm_rs_verif: candidate queue exhausted";
+
+/// Install (`Some`) or remove (`None`) the per-thread queue of candidates.
+pub fn set_candidates(q: Option<Vec<[u8; 32]>>) {
+    CANDIDATES.with(|c| *c.borrow_mut() = q.map(VecDeque::from));
+}
+
+/// Number of candidates still queued (0 when no queue is installed).
+pub fn candidates_left() -> usize {
+    CANDIDATES.with(|c| c.borrow().as_ref().map(|q| q.len()).unwrap_or(0))
+}
+
+/// Called by `random_u256` right after the RNG filled `buf`.
+pub fn override_candidate(buf: &mut [u8; 32]) {
+    CANDIDATES.with(|c| {
+        if let Some(q) = c.borrow_mut().as_mut() {
+            match q.pop_front() {
+                Some(v) => *buf = v,
+                None => panic!("{}", EXHAUSTED_MSG),
+            }
+        }
+    });
+}
+
+/// Start (or restart) recording the scalars accepted by `random_u256`.
+pub fn start_recording() {
+    ACCEPTED.with(|a| *a.borrow_mut() = Some(Vec::new()));
+}
+
+/// Stop recording and return what was recorded on this thread.
+pub fn take_recorded() -> Vec<U256> {
+    ACCEPTED.with(|a| a.borrow_mut().take().unwrap_or_default())
+}
+
+/// Called by `random_u256` with the value it is about to return.
+pub fn record_accepted(v: &U256) {
+    ACCEPTED.with(|a| {
+        if let Some(l) = a.borrow_mut().as_mut() {
+            l.push(*v);
+        }
+    });
+}
+
+pub mod fp64 {
+    pub use crate::fields::fp64::*;
+    use crate::u256::U256;
+
+    pub fn to_mont(a: &U256) -> U256 {
+        crate::fields::fp64::fp_to_mont(a)
+    }
+
+    pub fn from_mont(a: &U256) -> U256 {
+        crate::fields::fp64::fp_from_mont(a)
+    }
+
+    pub fn mont_mul(a: &U256, b: &U256) -> U256 {
+        crate::fields::fp64::mont_mul(a, b)
+    }
+}
+
+pub mod fn64 {
+    pub use crate::fields::fn64::*;
+}
+
+pub use crate::fields::FieldModOperation;
+
+pub fn point_from_byte(b: &[u8]) -> Sm2Result<Point> {
+    Point::from_byte(b)
+}
+
+pub fn precomputed_table() -> &'static [[U256; 510]; 32] {
+    &crate::sm2p256_table::SM2P256_PRECOMPUTED
+}
+
+pub fn exchange_key(e: &Exchange) -> Option<Vec<u8>> {
+    e.k.clone()
+}
